@@ -1,5 +1,6 @@
 import M3d.Gen.Kernels
 import M3d.Model.Box
+import M3d.Model.Spatial
 import Mathlib.Tactic.Ring
 import Mathlib.Tactic.SplitIfs
 import Mathlib.Algebra.Order.Field.Basic
@@ -10,7 +11,9 @@ import Mathlib.Algebra.Order.Field.Basic
 hierarchy query of C08: the loop over the axes with its shadowed `min`/`max`, unrolled by the translator)
 and `Coord3D.Min/Max/SquaredDist` as the Go source defines them NOW are the model functions
 `ptBoxDistSq3/2`, `sphereTouches3/2`, `V3.min/max`, `V3.sqDist` that the C08 soundness theorems
-(`M3d/Lemmas/Box.lean`, `Prune`) are about.
+(`M3d/Lemmas/Box.lean`, `Prune`) are about; `boundsArea` (the score of `bestSplitAxis` /
+`multipleBoundsArea` in `GroupBounders`, and of `areaDensityBVHSplit`) is `boundsArea3/2` of
+`M3d/Model/Spatial.lean`, which the driver runs in the `group` kind.
 -/
 namespace M3d.KernelsTie.Box
 open M3d.Box M3d.Gen.Kernels M3d.GenPrelude
@@ -58,5 +61,19 @@ theorem circleTouches2_eq (c : V2 K) (r : K) (b : Box2 K) :
     model2d.circleTouchesBounds (g2 c) r (g2 b.min) (g2 b.max) = sphereTouches2 c r b := by
   unfold model2d.circleTouchesBounds sphereTouches2
   rw [ptBoxDistSq2_eq]
+
+/-- `boundsArea` (3D; `max.Sub(min)` is `max + min·(-1)` in the source). -/
+theorem boundsArea3_eq (b : Box3 K) :
+    model3d.boundsArea (g3 b.min) (g3 b.max) = M3d.Spatial.boundsArea3 b := by
+  unfold model3d.boundsArea M3d.Spatial.boundsArea3
+  simp only [model3d.Coord3D_Sub, model3d.Coord3D_Add, model3d.Coord3D_Scale, g3]
+  ring
+
+/-- `boundsArea` (2D: the perimeter). -/
+theorem boundsArea2_eq (b : Box2 K) :
+    model2d.boundsArea (g2 b.min) (g2 b.max) = M3d.Spatial.boundsArea2 b := by
+  unfold model2d.boundsArea M3d.Spatial.boundsArea2
+  simp only [model2d.Coord_Sub, model2d.Coord_Add, model2d.Coord_Scale, g2]
+  ring
 
 end M3d.KernelsTie.Box
